@@ -161,9 +161,64 @@ class Interp:
         self.pure_cache = {}
         self.post_hooks = {}
         self.env = {}
+        self._module_state = None  # id(container) -> "module:name" for module-/class-level containers of the code under contract
+        self._module_state_n = -1
+        self.module_caches = {}  # "module:name" -> checker(key, value): declared caches whose invariant is checked at every write
         from . import models
 
         models.install(self)
+
+    # ------------------------------------------------------------ module-level state (frame condition)
+    def module_state_name(self, obj):
+        """name of the module-level (or class-level) container of the code under contract that `obj` is, or None"""
+        import collections
+        import sys
+
+        if self._module_state is None or self._module_state_n != len(sys.modules):
+            kinds = (dict, list, set, bytearray, collections.deque)
+            repo = self.roots[0]
+            table = {}
+            for mname, m in list(sys.modules.items()):
+                fn = getattr(m, "__file__", None)
+                if not fn or not os.path.realpath(fn).startswith(repo + os.sep):
+                    continue
+                for k, v in list(vars(m).items()):
+                    if k.startswith("__"):
+                        continue
+                    if isinstance(v, kinds):
+                        table[id(v)] = f"{mname}:{k}"
+                        if isinstance(v, dict):
+                            for k2, v2 in list(v.items()):
+                                if isinstance(v2, kinds):
+                                    table.setdefault(id(v2), f"{mname}:{k}[{k2!r}]")
+                    elif isinstance(v, type) and getattr(v, "__module__", None) == mname:
+                        for k2, v2 in list(vars(v).items()):
+                            if not k2.startswith("__") and isinstance(v2, kinds):
+                                table[id(v2)] = f"{mname}:{v.__name__}.{k2}"
+            self._module_state = table
+            self._module_state_n = len(sys.modules)
+        return self._module_state.get(id(obj))
+
+    def guard_write(self, obj, node=None, key=None, value=None):
+        """A function under contract is specified over its arguments and the gateway heap.  Writing a module- or
+        class-level container makes later calls depend on earlier ones, which no per-call contract covers: unless
+        the container is a declared cache whose invariant holds for this write, the write fails the frame
+        obligation `frame.module-state` and the path ends there (the real object is never modified)."""
+        name = self.module_state_name(obj)
+        if name is None or not self.stack:
+            return
+        chk = self.module_caches.get(name)
+        if chk is not None and key is not None and chk(key, value):
+            return
+        self.ctx.clause_kind = "frame"
+        self.ctx.oblige(
+            f"{getattr(self, 'task_name', '')}.frame.module-state".lstrip("."),
+            z3.BoolVal(False),
+            kind="frame",
+            site=self.site(node) if node is not None else None,
+            meta={"global": name, "writer": self.stack[-1].name},
+        )
+        raise CutPath()
 
     # ------------------------------------------------------------ helpers
     def is_interpreted_func(self, f):
@@ -531,7 +586,16 @@ class Interp:
         frame.nonlocals = set(getattr(frame, "nonlocals", set())) | set(node.names)
 
     def stmt_Global(self, node, frame):
-        raise Unsupported("global statement")
+        # rebinding a module-level name from inside a function is a write of module-level state
+        self.ctx.clause_kind = "frame"
+        self.ctx.oblige(
+            f"{getattr(self, 'task_name', '')}.frame.module-state".lstrip("."),
+            z3.BoolVal(False),
+            kind="frame",
+            site=self.site(node),
+            meta={"global": f"{frame.globals.get('__name__')}:{','.join(node.names)}", "writer": frame.name},
+        )
+        raise CutPath()
 
     def stmt_If(self, node, frame):
         if self.truth(self.eval(node.test, frame), node):
